@@ -394,6 +394,26 @@ def prop_c03(off, k, cs):
     if got is not None and got != layout.serialize(key, off, spec2):
         return ("FAIL after the file object was changed (payload replaced, tag and component added) its serialisation is not the "
                 "documented layout of its current content: something computed for the earlier state was reused")
+    # the defaults: `to_binary()` = offset 0 and the default (all-zero) session key; keyword forms of the same call
+    try:
+        d0 = Bf3File({}, parse_comps(cs)).to_binary()
+        dk = Bf3File({}, parse_comps(cs)).to_binary(session_key=key)
+        do = Bf3File({}, parse_comps(cs)).to_binary(offset=off, session_key=key)
+    except OverflowError:
+        d0 = dk = do = None
+    except Exception as e:
+        return f"FAIL to_binary with default / keyword arguments raises {type(e).__name__}: {e}"
+    if d0 is not None:
+        zkey = bytes(16)
+        spec0 = [(list(c.description.items()),
+                  refaes.cbc_encrypt(zkey, bytes(16), refaes.zero_pad(c.blob)) if c.encrypt_by_session_key else c.blob, c.actual_len)
+                 for c in comps]
+        if d0 != layout.serialize(zkey, 0, spec0):
+            return "FAIL to_binary() without arguments is not the documented layout at offset 0 under the default session key"
+        if dk != layout.serialize(key, 0, spec):
+            return "FAIL to_binary(session_key=k) is not the documented layout at offset 0"
+        if do != out:
+            return "FAIL to_binary(offset=o, session_key=k) differs from to_binary(o, k)"
     # `components` is declared as an Iterable: a tuple, an iterator or a generator gives the same file as the list
     for what, mk in (("tuple", tuple), ("iterator", iter), ("generator", lambda l: (c for c in l)), ("map", lambda l: map(lambda c: c, l))):
         try:
@@ -426,6 +446,8 @@ def damage_scan(read, binary, text_of, comments, same, what, stride=1, offset=0)
     'KNOWN:' is remembered and the scan goes on (a different violation takes precedence)."""
     n = 0
     known = None
+    import inspect
+    want_pos = "pos" in inspect.signature(same).parameters        # the comparison may want to know which byte was damaged
 
     def probe(text, what_str, **kw):
         nonlocal n, known
@@ -443,7 +465,7 @@ def damage_scan(read, binary, text_of, comments, same, what, stride=1, offset=0)
     for pos in range(offset, len(binary), stride):
         for v in _replacements(binary[pos]):
             d = binary[:pos] + bytes([v]) + binary[pos + 1:]
-            r = probe(text_of(d), f"byte {pos} {binary[pos]:02x}->{v:02x}")
+            r = probe(text_of(d), f"byte {pos} {binary[pos]:02x}->{v:02x}", **({"pos": pos} if want_pos else {}))
             if r:
                 return n, r
     if what != "bytes":
